@@ -473,7 +473,10 @@ CLAIMS = {
          "traits, impls, generic functions with bounds, generic enums/structs instantiated across packages, closures, multi-file packages, ill-typed variants) are "
          "compiled whole and separately in every topological order (sampled in the quick tier) with .interface/.core written to and re-read from JSON files; "
          "acceptance must agree (same stage when rejected), Go.Sem of both Go ASTs and Sem of both Cores must give the same outcome, Go.Check must agree, and "
-         "check_package / build_package must serialise the same interface bytes.",
+         "check_package / build_package must serialise the same interface bytes. The same oracle also judges a deterministic catalogue of type-directed lookups "
+         "(field, inherent method, Trait::m(v), bound, dyn coercion, match; through call results, lets and closure parameters) on a value whose type lives in a package "
+         "the user package imports / imports only in a sibling file / reaches only through an import of an import, with the impl beside the type or beside the trait, "
+         "user = Main or a library (258 projects), and a sample of the C16 package worlds (60 quick / 600 thorough).",
     design_ref="§5 C14, 'C14 — as built'",
     note="For programs with closures (about three quarters of the generated projects) equality of behaviour is observed under Sem/Go.Sem, not proved: a closure value "
          "carries its body and environment, so the renaming theorem needs a relation on values instead of equality. The stages after Core (mono, lift, anf, go) are "
